@@ -239,6 +239,10 @@ func (rt *Transfer) recvGenerator(idx int, f *File) error {
 		if err := rt.createDevice(f, st); err != nil {
 			return err
 		}
+		// mknod/mkfifo/bind apply the umask and do not set times or owner
+		if err := rt.setPerms(f, fs.FileMode(f.Mode)); err != nil {
+			return err
+		}
 		return nil
 	}
 
